@@ -51,11 +51,36 @@ def fallShrink_go : String := "ok 1|d|"
 /-- GnoVM: Go-level panic "unexpected block size shrinkage: 1 vs 0" after printing 1 -/
 def fallShrink_gno : String := "crash:vm-panic 1|"
 
+/-- `func inner() { defer func() { println("rec", recover() != nil) }(); panic("B") }`
+    `func main()  { defer func() { inner(); println("after inner") }(); panic("A") }` -/
+def nestedRecoverInner : FuncDecl := { name := "inner", params := [], results := [], body := [
+  .deferS (.funcLit 1) [],
+  .panicS (.box .str (.lit (.str [66])))] }
+def nestedRecoverLit1 : FuncDecl := { name := "lit1", params := [], results := [], body := [
+  .print [.lit (.str [114, 101, 99]), .bin (.cmp .ne) .recover (.nilE .any)]] }
+def nestedRecoverMain : FuncDecl := { name := "main", params := [], results := [], body := [
+  .deferS (.funcLit 3) [],
+  .panicS (.box .str (.lit (.str [65])))] }
+def nestedRecoverLit3 : FuncDecl := { name := "lit3", params := [], results := [], body := [
+  .exprS (.call (.var "inner") []),
+  .print [.lit (.str [97, 102, 116, 101, 114, 32, 105, 110, 110, 101, 114])]] }
+def nestedRecover : Program :=
+  { types := [], funcs := #[nestedRecoverInner, nestedRecoverLit1, nestedRecoverMain, nestedRecoverLit3],
+    globals := [], entry := 2 }
+/-- Go: the deferred function goes on after `inner` has recovered its own panic -/
+def nestedRecover_go : String := "panic:user s:A rec true|after inner|"
+/-- GnoVM: the rest of the deferred function is abandoned -/
+def nestedRecover_gno : String := "panic:user s:A rec true|"
+/-- the printed lines only (the theorem compares these; both runs end with panic "A") -/
+def nestedRecover_goOut : Array String := #["rec true|", "after inner|"]
+def nestedRecover_gnoOut : Array String := #["rec true|"]
+
 /-- recorded answers by key: (what Go / the model gives, what the GnoVM was observed to give) -/
 def recorded : String → Option (String × String)
   | "shift-assign-narrow-count" => some (shiftAssign_go, shiftAssign_gno)
   | "untyped-bool-rejected" => some (untypedBool_go, untypedBool_gno)
   | "fallthrough-block-shrink" => some (fallShrink_go, fallShrink_gno)
+  | "nested-recover-abandons-defer" => some (nestedRecover_go, nestedRecover_gno)
   | _ => none
 
 end GnoVerif.C04.Known
